@@ -5,7 +5,7 @@ which buffers (cache, buffet, both) and with which style. Specifications the com
 import itertools
 
 
-def spec(part, isect, layout, types, where, style, cbits=True):
+def spec(part, isect, layout, types, where, style, cbits=True, isect_rank=None):
     kr = ["K"] if part is None else ["K1", "K0"]
     inner = kr[-1]
     y = "einsum:\n  declaration:\n    A: [K, M]\n    B: [K, N]\n    Z: [M, N]\n  expressions:\n  - Z[m, n] = A[k, m] * B[k, n]\n"
@@ -47,7 +47,7 @@ def spec(part, isect, layout, types, where, style, cbits=True):
                 y += "      evict-on: %s\n" % ("root" if part is None else kr[0])
                 if style != "lazy":
                     y += "      style: %s\n" % style
-    y += "  - component: Isect\n    bindings:\n    - rank: %s\n" % inner
+    y += "  - component: Isect\n    bindings:\n    - rank: %s\n" % (isect_rank or inner)
     if isect == "leader-follower":
         y += "      leader: A\n"
     y += "  - component: Mul\n    bindings:\n    - op: mul\n"
@@ -72,4 +72,10 @@ def specs(tier="quick"):
             continue
         name = "matmul K:%s isect=%s layout=%s on-chip %s in %s style=%s" % (part, isect, layout, "+".join(types), "+".join(where), style)
         out.append((name, spec(part, isect, layout, types, where, style)))
+    # the intersector binding names the rank as declared (K) although the mapping splits it, or its outer level
+    for part in parts[1:]:
+        for isect in isects:
+            for r in ("K", "K1"):
+                out.append(("matmul K:%s isect=%s bound to rank %s" % (part, isect, r),
+                            spec(part, isect, "contiguous", ("coord", "payload"), ("Buf",), "lazy", isect_rank=r)))
     return out
